@@ -145,6 +145,12 @@ impl<'tcx> Cx<'tcx> {
             }
         }
         if let Const::Unevaluated(uv, _) = c {
+            // evaluate non-generic named constants so tables of constants are data (e.g. picos::DAY, DEFAULT_SAMPLE_COUNT)
+            if uv.promoted.is_none() && !c.has_param() && ty.is_integral() {
+                if let Some(int) = c.try_eval_scalar_int(self.tcx, TypingEnv::fully_monomorphized()) {
+                    let _ = write!(extra, ",\"bits\":\"{}\",\"size\":{}", int.to_bits_unchecked(), int.size().bytes());
+                }
+            }
             let _ = write!(extra, ",\"uneval\":{},\"promoted\":{}", js(&self.tcx.def_path_str(uv.def)), uv.promoted.map(|p| p.as_usize() as i64).unwrap_or(-1));
         }
         format!("{{\"ty\":{},\"d\":{}{}}}", js(&format!("{}", ty)), js(&format!("{}", c)), extra)
